@@ -272,8 +272,8 @@ theorem wrapI64_id (x : Int) (h1 : i64Min ≤ x) (h2 : x ≤ i64Max) : wrapI64 x
 
 /-- **Duration / Timestamp**: every `time::Duration` except those with `seconds = i64::MIN` and negative nanoseconds
 survives `build` then `read` (no panic, same value). -/
-theorem duration_read_build (d : Dur) (hv : d.Valid) (hmin : i64Min < d.secs ∨ 0 ≤ d.nanos) :
-    durRead (durBuild d).1 (durBuild d).2 = .ok d := by
+theorem duration_raw_build (d : Dur) (hv : d.Valid) (hmin : i64Min < d.secs ∨ 0 ≤ d.nanos) :
+    durFromPartsRaw (durBuild d).1 (durBuild d).2 = .ok d := by
   obtain ⟨h1, h2, h3, h4, h5, h6⟩ := hv
   obtain ⟨s, n⟩ := d
   simp only [i64Min, i64Max, nanosPerSec] at *
@@ -286,13 +286,13 @@ theorem duration_read_build (d : Dur) (hv : d.Valid) (hmin : i64Min < d.secs ∨
     have hw : wrapI64 (s - 1) = s - 1 := wrapI64_id _ (by simp only [i64Min]; omega) (by simp only [i64Max]; omega)
     have hd : Int.tdiv (n + 1000000000) 1000000000 = 0 := Int.tdiv_eq_zero_of_lt (by omega) (by omega)
     have hm : Int.tmod (n + 1000000000) 1000000000 = n + 1000000000 := Int.tmod_eq_of_lt (by omega) (by omega)
-    simp only [durRead, durBuild, hn, if_true, hw, durFromParts, nanosPerSec, hd, hm, i64Min, i64Max, Int.add_zero,
+    simp only [durBuild, hn, if_true, hw, durFromPartsRaw, nanosPerSec, hd, hm, i64Min, i64Max, Int.add_zero,
       Int.zero_add]
     rw [if_neg (by omega), if_pos (by omega), if_neg (by omega)]
     congr 2 <;> omega
   · have hd : Int.tdiv n 1000000000 = 0 := Int.tdiv_eq_zero_of_lt (by omega) (by omega)
     have hm : Int.tmod n 1000000000 = n := Int.tmod_eq_of_lt (by omega) (by omega)
-    simp only [durRead, durBuild, hn, if_false, durFromParts, nanosPerSec, hd, hm, i64Min, i64Max, Int.add_zero,
+    simp only [durBuild, hn, if_false, durFromPartsRaw, nanosPerSec, hd, hm, i64Min, i64Max, Int.add_zero,
       Int.zero_add]
     have hs0 : ¬ (1000000000 ≤ n ∨ (s < 0 ∧ 0 < n)) := by
       intro h; rcases h with h | ⟨h, h'⟩
@@ -303,6 +303,24 @@ theorem duration_read_build (d : Dur) (hv : d.Valid) (hmin : i64Min < d.secs ∨
       · omega
       · exact h
     rw [if_neg (by omega), if_neg hs0, if_neg hs1]
+
+theorem duration_read_build (d : Dur) (hv : d.Valid) (hmin : i64Min < d.secs ∨ 0 ≤ d.nanos) :
+    durRead (durBuild d).1 (durBuild d).2 = .ok d := by
+  simp only [durRead, durFromParts, duration_raw_build d hv hmin, if_pos hmin]
+
+/-- repair F12: whatever `read` accepts can be re-encoded — never `i64::MIN` whole seconds with a negative sub-second part -/
+theorem duration_read_representable (s n : Int) (d : Dur) (h : durRead s n = .ok d) :
+    i64Min < d.secs ∨ 0 ≤ d.nanos := by
+  simp only [durRead, durFromParts] at h
+  generalize durFromPartsRaw s n = r at h
+  cases r with
+  | ok x =>
+    simp only at h
+    split at h
+    · cases h; assumption
+    · cases h
+  | err => cases h
+  | panic => cases h
 
 /-- the excluded corner really is excluded for a reason: `Duration::MIN` does not survive (release profile: the
 decrement wraps) -/
